@@ -311,3 +311,397 @@ Qed.
 
 End WithZero.
 End Summ.
+
+(* ------------------------------------------------------------------------------------- *)
+(* 3. reads                                                                              *)
+(* ------------------------------------------------------------------------------------- *)
+
+(* ---- 3.0 error-or-same, generic ---- *)
+
+Lemma eos_eosR {A} (r' r : res A) : eos r' r <-> eosR eq r' r.
+Proof.
+  unfold eos, eosR. split.
+  - intros [->| ->]; [now left|].
+    destruct r as [a| |]; [right; right; eauto|now left|right; left; auto].
+  - intros [->|[[-> ->]|(a & a' & -> & -> & ->)]]; auto.
+Qed.
+
+Lemma eosR_ok {A} (R : A -> A -> Prop) a a' : R a a' -> eosR R (OK a') (OK a).
+Proof. intros Hr. right. right. eauto. Qed.
+
+Lemma eosR_err {A} (R : A -> A -> Prop) r : eosR R Err r.
+Proof. now left. Qed.
+
+Lemma eosR_same {A} (R : A -> A -> Prop) r : (forall a, R a a) -> eosR R r r.
+Proof. intros Hr. destruct r as [a| |]; [right; right; eauto|now left|right; left; auto]. Qed.
+
+Lemma eosR_mono {A} (R S : A -> A -> Prop) r' r :
+  (forall a a', R a a' -> S a a') -> eosR R r' r -> eosR S r' r.
+Proof.
+  intros HRS [->|[[-> ->]|(a & a' & -> & -> & Hr)]]; [now left|right; left; auto|].
+  right. right. exists a, a'. repeat split; auto.
+Qed.
+
+Lemma eosR_bind {A B} (R : A -> A -> Prop) (S : B -> B -> Prop) r' r k' k :
+  eosR R r' r -> (forall a a', R a a' -> eosR S (k' a') (k a)) ->
+  eosR S (bind r' k') (bind r k).
+Proof.
+  intros [->|[[-> ->]|(a & a' & -> & -> & Hr)]] Hk; cbn [bind];
+    [now left|right; left; auto|auto].
+Qed.
+
+Lemma eosR_strengthen {A} (R : A -> A -> Prop) (P : A -> Prop) r' r :
+  eosR R r' r -> (forall a, r = OK a -> P a) -> eosR (fun a a' => R a a' /\ P a) r' r.
+Proof.
+  intros [->|[[-> ->]|(a & a' & -> & -> & Hr)]] HP; [now left|right; left; auto|].
+  right. right. exists a, a'. repeat split; auto.
+Qed.
+
+Lemma eosR_no_panic {A} (R : A -> A -> Prop) r' r : eosR R r' r -> r <> Panic -> r' <> Panic.
+Proof.
+  intros [->|[[-> ->]|(a & a' & -> & -> & Hr)]] Hn; try discriminate. congruence.
+Qed.
+
+Lemma eos_bind {A B} (R : A -> A -> Prop) r' r (k' k : A -> res B) :
+  eosR R r' r -> (forall a a', R a a' -> eos (k' a') (k a)) -> eos (bind r' k') (bind r k).
+Proof.
+  intros Hr Hk. apply eos_eosR. eapply eosR_bind; [exact Hr|].
+  intros a a' Ha. apply eos_eosR. auto.
+Qed.
+
+Lemma eos_refl {A} (r : res A) : eos r r.
+Proof. now right. Qed.
+
+Lemma eos_no_panic {A} (r' r : res A) : eos r' r -> r <> Panic -> r' <> Panic.
+Proof. intros [->| ->]; [discriminate|auto]. Qed.
+
+Lemma Forall2_eq_eq {A} (l l' : list A) : Forall2 eq l l' -> l = l'.
+Proof. induction 1; congruence. Qed.
+
+Lemma mapM_eosR {A B} (R : A -> A -> Prop) (S : B -> B -> Prop) (f' f : A -> res B) :
+  forall l l', Forall2 R l l' -> (forall a a', R a a' -> eosR S (f' a') (f a)) ->
+  eosR (Forall2 S) (mapM f' l') (mapM f l).
+Proof.
+  intros l l' HF Hf. induction HF as [|a a' l l' Ha HF IH]; cbn [mapM].
+  - apply eosR_ok. constructor.
+  - eapply eosR_bind; [apply Hf, Ha|]. intros y y' Hy.
+    eapply eosR_bind; [exact IH|]. intros ys ys' Hys. apply eosR_ok. now constructor.
+Qed.
+
+Lemma mapM_eos {A B} (R : A -> A -> Prop) (f' f : A -> res B) l l' :
+  Forall2 R l l' -> (forall a a', R a a' -> eos (f' a') (f a)) -> eos (mapM f' l') (mapM f l).
+Proof.
+  intros HF Hf. apply eos_eosR.
+  eapply eosR_mono; [|eapply (mapM_eosR R eq); [exact HF|]].
+  - intros ys ys' Hys. now apply Forall2_eq_eq.
+  - intros a a' Ha. apply eos_eosR. auto.
+Qed.
+
+Lemma mapM_eosR_same {A B} (S : B -> B -> Prop) (f' f : A -> res B) : forall l,
+  (forall x, In x l -> eosR S (f' x) (f x)) -> eosR (Forall2 S) (mapM f' l) (mapM f l).
+Proof.
+  induction l as [|x l IH]; intros Hf; cbn [mapM].
+  - apply eosR_ok. constructor.
+  - eapply eosR_bind; [apply Hf; now left|]. intros y y' Hy.
+    eapply eosR_bind; [apply IH; intros z Hz; apply Hf; now right|].
+    intros ys ys' Hys. apply eosR_ok. now constructor.
+Qed.
+
+Section Reads.
+Variable H : chunk -> chunk -> chunk.
+Variable zh : nat -> chunk.
+Notation summ := (summ H).
+Notation backs := (backs zh).
+
+Definition leafy (m : node) : Prop := exists c, m = Leaf c.
+
+Lemma leafy_leaf c : leafy (Leaf c).
+Proof. exists c. reflexivity. Qed.
+
+Lemma summ_leafy m m' : summ m m' -> leafy m -> m' = m.
+Proof. intros Hs [c ->]. now apply summ_leaf_inv in Hs. Qed.
+
+Lemma Forall2_summ_leafy ns ns' :
+  Forall2 (fun m m' => summ m m' /\ leafy m) ns ns' -> ns' = ns.
+Proof.
+  induction 1 as [|m m' ns ns' [Hs Hl] HF IH]; [reflexivity|].
+  rewrite (summ_leafy _ _ Hs Hl), IH. reflexivity.
+Qed.
+
+(* ---- 3.1 bottom nodes ---- *)
+
+Lemma bottom_pair a b d q :
+  bottom (Pair a b) (d + 1) q = bottom (if N.testbit q d then b else a) d q.
+Proof. unfold bottom. rewrite index_path_cons. reflexivity. Qed.
+
+Lemma bottom_0 n q : bottom n 0 q = OK n.
+Proof. unfold bottom, index_path. change (N.to_nat 0) with 0%nat. cbn [seq map]. apply get_path_nil. Qed.
+
+Lemma bottom_leaf c d q m : bottom (Leaf c) d q = OK m -> m = Leaf c.
+Proof.
+  unfold bottom. destruct (index_path d q) as [|b p]; cbn [get_path]; [|discriminate].
+  now intros [= <-].
+Qed.
+
+Lemma summ_bottom n n' d q : summ n n' -> eosR summ (bottom n' d q) (bottom n d q).
+Proof. intros Hs. now apply summ_get_eosR. Qed.
+
+Lemma summ_getter n n' g : summ n n' -> eosR summ (getter n' g) (getter n g).
+Proof. intros Hs. now apply summ_get_eosR. Qed.
+
+Lemma summ_get_node t n n' i : summ n n' -> eosR summ (get_node t n' i) (get_node t n i).
+Proof.
+  intros Hs. unfold get_node.
+  destruct (to_gindex64 i (view_depth t)) as [g| |]; cbn [bind];
+    [now apply summ_getter|apply eosR_err|right; left; auto].
+Qed.
+
+(* get_node in terms of bottom *)
+Lemma get_node_ok t n i m : get_node t n i = OK m ->
+  view_depth t < 64 /\ i < 2 ^ view_depth t /\ bottom n (view_depth t) i = OK m.
+Proof.
+  unfold get_node. rewrite to_gindex64_spec.
+  destruct (N.ltb_spec (view_depth t) 64) as [Hd|Hd]; cbn [andb bind]; [|discriminate].
+  destruct (N.ltb_spec i (2 ^ view_depth t)) as [Hi|Hi]; cbn [bind]; [|discriminate].
+  intros Hg. rewrite bottom_getter by assumption. auto.
+Qed.
+
+(* the node iterator on the partial tree: error, or the bottom nodes of the full tree up to
+   summaries; P is whatever is known about the bottom nodes of the full tree *)
+Lemma summ_node_iter (P : node -> Prop) n n' len depth :
+  summ n n' ->
+  (forall i m, i < len -> bottom n depth i = OK m -> P m) ->
+  eosR (Forall2 (fun m m' => summ m m' /\ P m))
+       (node_iter_all n' len depth) (node_iter_all n len depth).
+Proof.
+  intros Hs HP. destruct (node_iter_ok depth len) eqn:Hok.
+  2:{ unfold node_iter_all. rewrite Hok. apply eosR_err. }
+  destruct (N.lt_ge_cases depth 64) as [Hd|Hd].
+  - apply (node_iter_ok_spec depth len Hd) in Hok.
+    rewrite !node_iter_all_spec by assumption.
+    apply mapM_eosR_same. intros k Hk. apply seq_in_lt in Hk.
+    apply eosR_strengthen; [now apply summ_bottom|]. intros m Hm. eapply HP; eauto.
+  - apply (node_iter_ok_high depth len Hd) in Hok. subst len.
+    unfold node_iter_all. destruct (node_iter_ok depth 0); [|apply eosR_err].
+    change (nat_of 0) with 0%nat. cbn [node_iter_take]. apply eosR_ok. constructor.
+Qed.
+
+Lemma summ_subtree_into_bytes c c' depth len dl :
+  summ c c' -> (forall q m, q < len -> bottom c depth q = OK m -> leafy m) ->
+  eos (subtree_into_bytes c' depth len dl) (subtree_into_bytes c depth len dl).
+Proof.
+  intros Hs HP. unfold subtree_into_bytes.
+  eapply eos_bind; [apply (summ_node_iter leafy); eauto|].
+  intros ns ns' HF. apply Forall2_summ_leafy in HF. subst ns'. apply eos_refl.
+Qed.
+
+(* ---- 3.2 the shape of a backing tree ---- *)
+
+Lemma ztree_bottom_leafy : forall d n q m,
+  ztree zh d n -> bottom n (N.of_nat d) q = OK m -> leafy m.
+Proof.
+  induction d as [|d IH]; intros n q m Hz Hb.
+  - apply ztree_0 in Hz. subst n. apply bottom_leaf in Hb. subst m. apply leafy_leaf.
+  - destruct n as [c|a b].
+    + apply bottom_leaf in Hb. subst m. apply leafy_leaf.
+    + apply ztree_S_pair in Hz. destruct Hz as [Ha Hb'].
+      replace (N.of_nat (S d)) with (N.of_nat d + 1) in Hb by lia. rewrite bottom_pair in Hb.
+      destruct (N.testbit q (N.of_nat d)); eapply IH; eauto.
+Qed.
+
+(* a series all of whose components are leaves has only leaves at the bottom level (the
+   padding consists of zero subtrees: their bottom nodes are zero leaves) *)
+Lemma series_all_leafy : forall d (ps : list (node -> Prop)) n q m,
+  Forall (fun p : node -> Prop => forall x, p x -> leafy x) ps ->
+  series zh d ps n -> bottom n (N.of_nat d) q = OK m -> leafy m.
+Proof.
+  induction d as [|d IH]; intros ps n q m HF Hs Hb.
+  - destruct ps as [|p ps].
+    + apply series_nil in Hs. eapply ztree_bottom_leafy; eauto.
+    + apply series_0 in Hs. destruct Hs as [_ Hp]. rewrite bottom_0 in Hb. injection Hb as <-.
+      inversion HF; subst; auto.
+  - destruct n as [c|a b].
+    + apply bottom_leaf in Hb. subst m. apply leafy_leaf.
+    + rewrite series_pair in Hs.
+      replace (N.of_nat (S d)) with (N.of_nat d + 1) in Hb by lia. rewrite bottom_pair in Hb.
+      destruct (lenN ps <=? 2 ^ N.of_nat d); destruct Hs as [Ha Hb'].
+      * destruct (N.testbit q (N.of_nat d)).
+        -- eapply ztree_bottom_leafy; eauto.
+        -- eapply IH; eauto.
+      * destruct (N.testbit q (N.of_nat d)).
+        -- eapply (IH _ b); [apply Forall_skipn'; exact HF|eauto|eauto].
+        -- eapply (IH _ a); [apply Forall_firstn'; exact HF|eauto|eauto].
+Qed.
+
+Lemma chunks_bottom_leafy d cs n q m :
+  series zh d (map is_chunk cs) n -> bottom n (N.of_nat d) q = OK m -> leafy m.
+Proof.
+  apply series_all_leafy. apply Forall_forall. intros p Hp. apply in_map_iff in Hp.
+  destruct Hp as (c & <- & _). intros x ->. apply leafy_leaf.
+Qed.
+
+Lemma series_bottom_fun d (ps : list (node -> Prop)) n i (p : node -> Prop) m :
+  series zh d ps n -> nth_error ps i = Some p ->
+  bottom n (N.of_nat d) (N.of_nat i) = OK m -> p m.
+Proof.
+  intros Hs Hn Hb. destruct (series_bottom zh d ps n i p Hs Hn) as (m0 & Hm0 & Hp). congruence.
+Qed.
+
+Local Ltac dval v Hty := destruct v; try (cbn [has_type] in Hty; discriminate Hty).
+
+Lemma backs_basic t n : match t with TUint _ | TBool | TBytes _ | TRoot => True | _ => False end ->
+  backs t n -> leafy n.
+Proof.
+  intros Ht (v & Hty & Hr). destruct t; try contradiction; dval v Hty; cbn [repr] in Hr;
+    subst n; apply leafy_leaf.
+Qed.
+
+(* lists: contents under the left child, the length leaf to the right *)
+Lemma backs_list t n : is_list_ty t = true -> backs t n ->
+  exists c L, n = Pair c (len_leaf L).
+Proof.
+  intros Ht (v & Hty & Hr). destruct t; try discriminate; dval v Hty; cbn [repr] in Hr;
+    destruct Hr as (c & -> & _); eauto.
+Qed.
+
+(* packed contents (bits, unsigned integers): every bottom node is a leaf *)
+Lemma backs_bitvector k n q m : backs (TBitvector k) n ->
+  bottom n (contents_depth (TBitvector k)) q = OK m -> leafy m.
+Proof.
+  intros (v & Hty & Hr). dval v Hty. cbn [repr] in Hr. rewrite <- cdepth_N.
+  eapply chunks_bottom_leafy; eauto.
+Qed.
+
+Lemma backs_bitlist k c L q m : backs (TBitlist k) (Pair c L) ->
+  bottom c (contents_depth (TBitlist k)) q = OK m -> leafy m.
+Proof.
+  intros (v & Hty & Hr). dval v Hty. cbn [repr] in Hr. destruct Hr as (c0 & E & Hr).
+  injection E as <- _. rewrite <- cdepth_N. eapply chunks_bottom_leafy; eauto.
+Qed.
+
+Lemma backs_vector_basic e k n q m : is_basic_elem e = true -> backs (TVector e k) n ->
+  bottom n (contents_depth (TVector e k)) q = OK m -> leafy m.
+Proof.
+  intros Hb (v & Hty & Hr). dval v Hty. rewrite repr_vector, Hb in Hr. rewrite <- cdepth_N.
+  eapply chunks_bottom_leafy; eauto.
+Qed.
+
+Lemma backs_list_basic e k c L q m : is_basic_elem e = true -> backs (TList e k) (Pair c L) ->
+  bottom c (contents_depth (TList e k)) q = OK m -> leafy m.
+Proof.
+  intros Hb (v & Hty & Hr). dval v Hty. rewrite repr_list, Hb in Hr.
+  destruct Hr as (c0 & E & Hr). injection E as <- _. rewrite <- cdepth_N.
+  eapply chunks_bottom_leafy; eauto.
+Qed.
+
+(* series of subtrees: the bottom nodes back the elements *)
+Lemma elems_bottom_backs e d vs n i m :
+  forallb (fun x => has_type x e) vs = true ->
+  series zh d (map (fun x m => repr zh e m x) vs) n -> i < lenN vs ->
+  bottom n (N.of_nat d) i = OK m -> backs e m.
+Proof.
+  intros Hty Hs Hi Hb. unfold lenN in Hi.
+  destruct (nth_error vs (N.to_nat i)) as [x|] eqn:Hx;
+    [|apply nth_error_None in Hx; lia].
+  exists x. split.
+  - rewrite forallb_forall in Hty. apply Hty. eapply nth_error_In; eauto.
+  - rewrite <- (N2Nat.id i) in Hb.
+    apply (series_bottom_fun d _ n (N.to_nat i) (fun m => repr zh e m x) m Hs); [|exact Hb].
+    now rewrite nth_error_map, Hx.
+Qed.
+
+Lemma backs_vector_elems e k n i m : is_basic_elem e = false -> backs (TVector e k) n ->
+  i < k -> bottom n (contents_depth (TVector e k)) i = OK m -> backs e m.
+Proof.
+  intros Hb (v & Hty & Hr) Hi Hbot. dval v Hty. rewrite repr_vector, Hb in Hr.
+  cbn [has_type] in Hty. apply andb_true_iff in Hty. destruct Hty as [Hlen Hty].
+  apply N.eqb_eq in Hlen. rewrite <- cdepth_N in Hbot.
+  eapply elems_bottom_backs; eauto. unfold lenN. lia.
+Qed.
+
+Lemma backs_list_elems e k c L : is_basic_elem e = false -> backs (TList e k) (Pair c (len_leaf L)) ->
+  exists L0, len_leaf L = len_leaf L0 /\
+  forall i m, i < L0 -> bottom c (contents_depth (TList e k)) i = OK m -> backs e m.
+Proof.
+  intros Hb (v & Hty & Hr). dval v Hty. rewrite repr_list, Hb in Hr.
+  destruct Hr as (c0 & E & Hr). injection E as <- E.
+  cbn [has_type] in Hty. apply andb_true_iff in Hty. destruct Hty as [_ Hty].
+  exists (lenN vs). split; [unfold len_leaf; now rewrite E|].
+  intros i m Hi Hbot. rewrite <- cdepth_N in Hbot. eapply elems_bottom_backs; eauto.
+Qed.
+
+Lemma cont_preds_length : forall fs vs, length fs = length vs ->
+  length (cont_preds zh fs vs) = length fs.
+Proof.
+  induction fs as [|f fs IH]; intros [|x vs] Hl; cbn in *; try lia. f_equal. apply IH. lia.
+Qed.
+
+Lemma rfields_ty_nth' : forall fs vs i f, rfields_ty fs vs = true -> nth_error fs i = Some f ->
+  exists x, nth_error vs i = Some x /\ has_type x f = true.
+Proof.
+  induction fs as [|f0 fs IH]; intros [|x0 vs] i f Hty Hf; cbn [rfields_ty] in Hty;
+    try discriminate; [destruct i; discriminate|].
+  apply andb_true_iff in Hty. destruct Hty as [H0 Hty].
+  destruct i; cbn [nth_error] in *.
+  - injection Hf as <-. eauto.
+  - eapply IH; eauto.
+Qed.
+
+Lemma backs_container fs n i f m : backs (TContainer fs) n -> nth_error fs i = Some f ->
+  bottom n (contents_depth (TContainer fs)) (N.of_nat i) = OK m -> backs f m.
+Proof.
+  intros (v & Hty & Hr) Hf Hbot. dval v Hty. rewrite has_type_cont in Hty.
+  rewrite repr_container in Hr. rewrite <- cdepth_N in Hbot.
+  destruct (rfields_ty_nth' fs vs i f Hty Hf) as (x & Hx & Htx).
+  exists x. split; [exact Htx|].
+  apply (series_bottom_fun _ _ n i (fun m => repr zh f m x) m Hr); [|exact Hbot].
+  now apply cont_preds_nth.
+Qed.
+
+Lemma byte_sel sel : sel < 256 -> N_of_byte (hd b0 (pad32 [byte_of_N sel])) = sel.
+Proof. intros Hs. change (hd b0 (pad32 [byte_of_N sel])) with (byte_of_N sel).
+  rewrite N_of_byte_of_N. now apply N.mod_small. Qed.
+
+(* unions: value under the left child, selector leaf to the right *)
+Lemma backs_union none opts n : wf_ty (TUnion none opts) = true -> backs (TUnion none opts) n ->
+  exists c s, n = Pair c (Leaf s) /\
+    (none && (N_of_byte (hd b0 s) =? 0) = false ->
+     forall o, nth_error opts (nat_of (if none then N_of_byte (hd b0 s) - 1 else N_of_byte (hd b0 s))) = Some o ->
+               backs o c).
+Proof.
+  intros Hwf (v & Hty & Hr). dval v Hty. rewrite repr_union in Hr.
+  destruct Hr as (c & -> & Hr). exists c, (pad32 [byte_of_N sel]). split; [reflexivity|].
+  cbn [wf_ty] in Hwf. apply andb_true_iff in Hwf. destruct Hwf as [Hwf _].
+  apply andb_true_iff in Hwf. destruct Hwf as [_ Hcnt]. apply N.leb_le in Hcnt.
+  rewrite has_type_union in Hty.
+  assert (Hsel : sel < 256).
+  { unfold union_count in Hcnt. destruct (none && (sel =? 0)) eqn:E0.
+    - apply andb_true_iff in E0. destruct E0 as [_ E0]. apply N.eqb_eq in E0. lia.
+    - rewrite rpick_nth_error in Hty.
+      destruct (nth_error opts (nat_of (if none then sel - 1 else sel))) as [o|] eqn:Eo;
+        [|discriminate].
+      assert (nat_of (if none then sel - 1 else sel) < length opts)%nat
+        by (apply nth_error_Some; congruence).
+      unfold nat_of in *. destruct none; lia. }
+  rewrite (byte_sel sel Hsel). intros E0 o Ho. rewrite E0 in Hty.
+  rewrite rpick_nth_error, Ho in Hty. destruct ov as [x|]; [|discriminate].
+  rewrite rpick_nth_error, Ho in Hr. exists x. auto.
+Qed.
+
+(* ---- 3.3 list length, list header ---- *)
+
+Lemma summ_list_header c L n' : summ (Pair c (len_leaf L)) n' ->
+  (exists x, n' = Leaf x) \/ exists c', n' = Pair c' (len_leaf L) /\ summ c c'.
+Proof.
+  intros Hs. destruct (summ_from_pair _ _ _ _ Hs) as [->|(a' & b' & -> & Ha & Hb)]; [eauto|].
+  right. unfold len_leaf in *. apply summ_leaf_inv in Hb. subst b'. eauto.
+Qed.
+
+Lemma summ_list_length t n n' limit : is_list_ty t = true -> backs t n -> summ n n' ->
+  eos (list_length limit n') (list_length limit n).
+Proof.
+  intros Ht Hb Hs. destruct (backs_list t n Ht Hb) as (c & L & ->).
+  destruct (summ_list_header _ _ _ Hs) as [[x ->]|(c' & -> & Hc)]; [now left|now right].
+Qed.
+
+End Reads.
